@@ -23,7 +23,7 @@ def _one(ctx, cases, mode, seed, label, st, oracle_props):
     exe = bin_path("pool")
     env = dict(os.environ, VERIF_SEED=str(seed))
     replay_cmd = f"VERIF_SEED={seed} {exe} {cases} {mode}"
-    p = subprocess.run([exe, str(cases), mode], capture_output=True, text=True, env=env, timeout=7200)
+    p = run_harness([exe, str(cases), mode], env, ctx)
     if p.returncode != 0:
         ctx.add_ob(f"run:pool-{label}", "build", False, f"rc={p.returncode}\n{p.stderr[-2000:]}\n{p.stdout[-1500:]}")
         ctx.oracle_failures.append({"engine": "pool", "mode": mode, "property": ctx.prop,
